@@ -139,7 +139,10 @@ class ResourceScenario(ScenarioData):
         if leaves:
             for leave in leaves:
                 if hasattr(leave, "interval"):
-                    start_idx = self.project.dateToIdx(leave.interval.start)
+                    # Clip to the project window: a leave that begins before the project start
+                    # would otherwise index the scoreboard with negative numbers (wrapping
+                    # around to the end of the project, or raising IndexError)
+                    start_idx = max(0, self.project.dateToIdx(leave.interval.start))
                     end_idx = self.project.dateToIdx(leave.interval.end)
                     for i in range(start_idx, min(end_idx, size)):
                         sb = self.scoreboard[i]
@@ -152,7 +155,7 @@ class ResourceScenario(ScenarioData):
         if res_leaves:
             for leave in res_leaves:
                 if hasattr(leave, "interval"):
-                    start_idx = self.project.dateToIdx(leave.interval.start)
+                    start_idx = max(0, self.project.dateToIdx(leave.interval.start))
                     end_idx = self.project.dateToIdx(leave.interval.end)
                     for i in range(start_idx, min(end_idx, size)):
                         sb = self.scoreboard[i]
